@@ -18,7 +18,7 @@ every seed.
 """
 from __future__ import annotations
 
-import itertools
+import json
 import os
 import sys
 import warnings
@@ -26,7 +26,7 @@ from decimal import Decimal
 
 from mc import ref_numfmt as ref
 from mc.evidence import Part, Run, parse_args, run_replay
-from mc.pool import Scratch, pmap, shards
+from mc.pool import Scratch, pmap
 
 from numbers_parser import Document, FractionAccuracy, NegativeNumberStyle
 from numbers_parser.cell import NumberCell
@@ -133,7 +133,7 @@ def build_groups(tier: str, seed: int):
                         for v in V for p in PLACES for sep in (False, True) for ns in STYLES]
     cs = currency_slice(seed)
     codes = list(CURRENCIES) if thorough else quick_currencies(seed)
-    cplaces = list(range(11)) if thorough else [0, 2, 3]
+    cplaces = [0, 2, 3, 10] if thorough else [0, 2, 3]  # all 0..10 are taken for the codes of currency-values
     groups["currency-codes"] = [
         ["currency", v, {"currency_code": code, "decimal_places": p, "show_thousands_separator": sep,
                          "negative_style": ns, "use_accounting_style": acc}]
@@ -223,7 +223,7 @@ def eval_batch(cases, path):
     ncols = min(BATCH_COLS, max(2, n))
     nrows = max(2, -(-n // ncols))
     results = [[] for _ in cases]
-    stats = {"outcomes": {}, "nontrivial": 0, "reopen_text_differs": 0, "exponent_in_auto": 0, "samples": []}
+    stats = {"outcomes": {}, "nontrivial": 0, "reopen_text_differs": 0, "exponent_in_auto": 0, "samples": [], "observed": []}
     # record=True: the sigfig package calls warnings.resetwarnings(), which would re-enable printing
     with warnings.catch_warnings(record=True):
         warnings.simplefilter("ignore")
@@ -246,6 +246,7 @@ def eval_batch(cases, path):
             r, c = divmod(i, ncols)
             kind, value, params = case
             again = _observe(table2.cell(r, c))
+            stats["observed"].append((live[i], again))
             live_pattern = None
             for phase, obs in (("live", live[i]), ("reopen", again)):
                 if obs[0] == "exc":
@@ -283,7 +284,9 @@ def eval_batch(cases, path):
 
 
 def scratch_file(tag):
-    return os.path.join(Scratch.dir(), f"c13-{tag}.numbers")
+    d = Scratch.dir()
+    os.makedirs(d, exist_ok=True)  # survives a concurrent clean-up of the temp directory between batches
+    return os.path.join(d, f"c13-{tag}.numbers")
 
 
 GROUPS = {}  # filled by main() before the pool forks
@@ -295,14 +298,19 @@ def work(task):
     part = Part()
     path = scratch_file(f"{os.getpid()}")
     results, stats = eval_batch(cases, path)
-    for case, fails in zip(cases, results):
+    for i, (case, fails) in enumerate(zip(cases, results)):
         for ident, detail in fails:
             replay = {"cases": [case], "index": 0}
-            if ident["phase"] == "reopen-only":
-                # a failure that needs its neighbours (format table of the batch) keeps the whole batch
-                single, _ = eval_batch([case], path)
-                if not any(i2 == ident for i2, _ in single[0]):
-                    replay = {"cases": cases, "index": cases.index(case)}
+            new_identity = json.dumps(ident, sort_keys=True) not in part.failures  # only the first replay is kept
+            if ident["phase"] == "reopen-only" and new_identity:
+                # a failure that needs its neighbours (format table of the saved batch) keeps the smallest
+                # of four contexts that reproduces it: alone, with both neighbours, the prefix, the whole batch
+                for lo, hi in ((i, i + 1), (max(0, i - 1), i + 2), (0, i + 2), (0, len(cases))):
+                    sub = cases[lo:hi]
+                    again, _ = eval_batch(sub, path)
+                    if any(i2 == ident for i2, _ in again[i - lo]):
+                        break
+                replay = {"cases": sub, "index": i - lo}
             part.fail(ident, detail, replay)
     try:
         os.remove(path)
@@ -338,10 +346,12 @@ def replay_fn(payload, _whole):
     cases, index = payload["cases"], payload["index"]
     with warnings.catch_warnings():
         warnings.simplefilter("ignore")
-        results, _ = eval_batch(cases, scratch_file("replay"))
+        results, stats = eval_batch(cases, scratch_file("replay"))
     fails = results[index]
     case = cases[index]
-    head = f"case {case!r}" + (f" (cell {index} of a batch of {len(cases)})" if len(cases) > 1 else "")
+    live, again = stats["observed"][index]
+    head = (f"case {case!r}" + (f" (cell {index} of a batch of {len(cases)})" if len(cases) > 1 else "")
+            + f"\n  live: {live[1:]!r}\n  after save+reopen: {again[1:]!r}")
     if fails:
         return True, head + "\n" + "\n".join(f"  {d}\n  ident={i}" for i, d in fails)
     return False, head + ": displayed text agrees with the value"
